@@ -325,6 +325,16 @@ func cmdCheck(args []string, writeLedger bool) {
 		}
 	}
 	DischargeAll(all, scratch, timeout, 16)
+	if *tier == "thorough" && !writeLedger {
+		ConfirmAll(all, scratch, 10, 16)
+		for _, o := range all {
+			if o.Disagree != "" {
+				// an engine-level warning (a solver bug or an ill-formed query), listed in the evidence; the
+				// verdict of the race is kept so that a solver's quirk is not turned into a property alarm
+				fmt.Fprintf(os.Stderr, "WARNING solver disagreement on %s: %s says unsat, %s says sat\n", o.Name, o.Backend, o.Disagree)
+			}
+		}
+	}
 
 	ledgerPath := filepath.Join(root, "ledger", prop+".json")
 	if writeLedger {
@@ -511,6 +521,16 @@ func writeEvidence(root, prop, tier string, seed int, frs []*FuncResult, all []*
 		}
 	}
 	perBackend := map[string]int{}
+	confirmed := 0
+	disagreements := []string{}
+	for _, o := range all {
+		if len(o.Confirmed) > 0 {
+			confirmed++
+		}
+		if o.Disagree != "" {
+			disagreements = append(disagreements, fmt.Sprintf("%s: %s unsat, %s sat", o.Name, o.Backend, o.Disagree))
+		}
+	}
 	solverTime := 0.0
 	var samples []interface{}
 	var notLedger []string
@@ -571,6 +591,8 @@ func writeEvidence(root, prop, tier string, seed int, frs []*FuncResult, all []*
 		"samples":                  samples,
 		"functions_under_contract": funcs,
 		"per_backend":              perBackend,
+		"confirmed_by_second_solver": confirmed,
+		"solver_disagreements":       disagreements,
 		"solver_time_s":            solverTime,
 		"slowest":                  slowest,
 		"generated_not_in_ledger":  notLedger,
